@@ -200,11 +200,25 @@ class Module:
         self.name, self.path, self.relpath, self.src = name, path, relpath, src
         self.tree = ast.parse(src, filename=path)
         self.sha = hashlib.sha256(src.encode("utf-8")).hexdigest()
+        self.imports = {}   # local name -> dotted origin
+        self.star_imports = []
+        self.reindex()
+        for st in ast.walk(self.tree):
+            if isinstance(st, ast.Import):
+                for a in st.names:
+                    self.imports[a.asname or a.name.split(".")[0]] = a.name if a.asname else a.name.split(".")[0]
+            elif isinstance(st, ast.ImportFrom) and st.module:
+                for a in st.names:
+                    if a.name == "*":
+                        self.star_imports.append(st.module)
+                    else:
+                        self.imports[a.asname or a.name] = st.module + "." + a.name
+
+    def reindex(self):
+        """(re)build the tables of module-level classes / functions / assignments from self.tree (called again after canonicalisation)"""
         self.classes = {}
         self.functions = {}
         self.assigns = {}   # module-level simple name -> list of value nodes (in order)
-        self.imports = {}   # local name -> dotted origin
-        self.star_imports = []
         for st in self.tree.body:
             if isinstance(st, ast.ClassDef):
                 self.classes[st.name] = st
@@ -216,16 +230,6 @@ class Module:
                         self.assigns.setdefault(t.id, []).append(st.value)
             elif isinstance(st, ast.AnnAssign) and isinstance(st.target, ast.Name) and st.value is not None:
                 self.assigns.setdefault(st.target.id, []).append(st.value)
-        for st in ast.walk(self.tree):
-            if isinstance(st, ast.Import):
-                for a in st.names:
-                    self.imports[a.asname or a.name.split(".")[0]] = a.name if a.asname else a.name.split(".")[0]
-            elif isinstance(st, ast.ImportFrom) and st.module:
-                for a in st.names:
-                    if a.name == "*":
-                        self.star_imports.append(st.module)
-                    else:
-                        self.imports[a.asname or a.name] = st.module + "." + a.name
 
     def loc(self, node):
         return f"{self.relpath}:{getattr(node, 'lineno', 0)}"
@@ -323,6 +327,8 @@ class Repo:
         # undo renames of locals so that rules can name them (see sa/canon.py); a no-op on the reference tree
         from .canon import canonicalise
         self.renames = canonicalise(self)
+        for m in self.modules.values():
+            m.reindex()
 
     # -- lookups (all fail closed)
     def module(self, name):
